@@ -235,6 +235,52 @@ def run(ctx):
                                    "sigLen": 16, "ctCut": 0, "hk": "right", "ak": "right", "verify": True,
                                    "r": "ok" if d[0] == "ok" else ("ValueError" if d[0] == "ValueError" else d[1]), "isPlain": False, "outLen": 0})
                         ctx.evaluations += 1
+    # long streams: thousands of framed packets (beyond anything TLC is handed; the frames are built by the harness with the
+    # layout the framing tables above fix: u32be length, ciphertext, 16-byte signature) must split back into exactly those packets
+    import struct
+
+    for npk in ([1200, 5000] if q else [999, 1000, 1001, 2500, 5000, 20000]):
+        pk = [(rng.randbytes(16 * rng.choice([1, 1, 2])), rng.randbytes(16)) for _ in range(npk)]
+        data = b"".join(struct.pack(">I", len(c) + len(s)) + c + s for c, s in pk)
+        so = core.guarded(lambda: [(bytes(a), bytes(b)) for a, b in c2.ClientC2Data(output=data).iter_encrypted_packets()], seconds=120)
+        ctx.evaluations += 1
+        if so != ("ok", pk):
+            viol("ClientC2Data.iter_encrypted_packets", "split_long_stream", {"packets": npk, "got": str(so[1])[:120] if so[0] != "ok" else f"{len(so[1])} packets"})
+        ctx.count_distinct(("long_stream", npk))
+    # the session decoder hands the keys it is given - including their IV - to decrypt_packet (callbacks and tasks)
+    from vt.ref import tlv
+
+    from Crypto.PublicKey import RSA
+
+    blk = tlv.block(tlv.http_config(RSA.generate(1024, randfunc=random.Random(ctx.seed + 55).randbytes).publickey().export_key("DER")))
+    from dissect.cobaltstrike import beacon as beacon_mod
+
+    for _ in range(6 if q else 60):
+        ak, hk, iv = rng.randbytes(16), rng.randbytes(16), rng.choice([b"abcdefghijklmnop", rng.randbytes(16), rng.randbytes(16)])
+        dec = c2.C2Http(beacon_mod.BeaconConfig(blk), aes_key=rng.randbytes(16), hmac_key=rng.randbytes(16))
+        bk = c2.BeaconKeys(aes_key=ak, hmac_key=hk, iv=iv)
+        cbs = [(rng.randrange(1, 1000), rng.choice([0, 30, 32]), rng.randbytes(rng.choice([0, 1, 15, 16, 40]))) for _i in range(rng.randrange(1, 4))]
+        framed = b""
+        for counter, cb, dat in cbs:
+            pt = struct.pack(">III", counter, len(dat), cb) + dat
+            pt += b"A" * (16 - len(pt) % 16)
+            ct = ref_cbc_encrypt(pt, ak, iv)
+            framed += struct.pack(">I", len(ct) + 16) + ct + ref_sig(ct, hk)
+        req = dec.transform_submit.transform(c2.ClientC2Data(id=b"1234", output=framed), request=c2.HttpRequest(method=b"POST", uri=b"/submit.php", params={}, headers={}, body=b""))
+        o = core.guarded(lambda: [(int(p.counter), int(p.callback), bytes(p.data)) for p in dec.iter_recover_http(req, keys=bk)], seconds=30)
+        ctx.evaluations += 1
+        if o != ("ok", cbs):
+            viol("C2Http.iter_recover_http(keys=)", "session_keys_iv", {"default_iv": iv == b"abcdefghijklmnop", "callbacks": len(cbs), "got": str(o)[:200]})
+        task = struct.pack(">IIII", 1700000000, 8 + 5, 2, 5) + b"hello"
+        task += b"A" * (16 - len(task) % 16)
+        ct = ref_cbc_encrypt(task, ak, iv)
+        resp = c2.HttpResponse(status=200, reason=b"OK", headers={}, body=dec.transform_response.transform(c2.C2Data(output=ct + ref_sig(ct, hk))).body)
+        o = core.guarded(lambda: [(int(p.command), bytes(p.data)) for p in dec.iter_recover_http(resp, keys=bk)], seconds=30)
+        ctx.evaluations += 1
+        if o != ("ok", [(2, b"hello")]):
+            viol("C2Http.iter_recover_http(keys=)", "session_keys_iv", {"default_iv": iv == b"abcdefghijklmnop", "direction": "task", "got": str(o)[:200]})
+        ctx.count_distinct(("session_iv", iv == b"abcdefghijklmnop", len(cbs)))
+
     # canary: a tampered packet that was "accepted" although verification was on
     canary = {"op": "decrypt", "ptLen": 5, "ctFlips": [["byte0", 0]], "sigFlips": [], "sigLen": 16, "ctCut": 0, "hk": "right", "ak": "right", "verify": True, "r": "ok", "isPlain": False, "outLen": 16}
     bad = core.tlc_judge(ctx, "PacketIO", ioc, ev, env={"TIER": ctx.tier}, canary=canary)
